@@ -162,4 +162,30 @@ f(i := INT#3, o1 => arr[k], o2 => rec.fb);\ng(i := INT#10, o1 => x);\ng(o2 => y)
             (0, "Main.y", "DINT#DInt(22)"),
         ],
     },
+    Cell {
+        name: "en-eno",
+        text: "FUNCTION Scale : INT\nVAR_INPUT EN : BOOL; x : INT; END_VAR\nVAR_OUTPUT ENO : BOOL; END_VAR\nScale := x * INT#2;\nEND_FUNCTION\n\
+FUNCTION Compute : INT\nVAR_INPUT enable : BOOL; base : INT; END_VAR\nVAR tmp : INT; ok : BOOL; END_VAR\ntmp := Scale(EN := enable, x := base, ENO => ok);\nIF enable THEN\n  Compute := tmp + base;\nELSE\n  Compute := base * INT#3;\nEND_IF;\nEND_FUNCTION\n\
+FUNCTION_BLOCK Gate\nVAR_INPUT EN : BOOL; x : INT; END_VAR\nVAR_OUTPUT ENO : BOOL; y : INT; END_VAR\nVAR n : INT; END_VAR\nn := n + INT#1;\ny := x + n;\nEND_FUNCTION_BLOCK\n\
+FUNCTION_BLOCK User\nVAR_INPUT go : BOOL; END_VAR\nVAR_OUTPUT o : INT; END_VAR\nVAR loc : INT := INT#7; t : INT; END_VAR\nt := Scale(EN := go, x := loc);\nIF go THEN\n  o := t + loc;\nELSE\n  o := loc;\nEND_IF;\nEND_FUNCTION_BLOCK\n\
+PROGRAM Main\nVAR d1 : INT; r1 : INT; r2 : INT; ok2 : BOOL := TRUE; g : Gate; h : Gate; gn : INT; hy : INT; gok : BOOL := TRUE; u : User; u2 : User; uo : INT; u2o : INT; skipped : INT; END_VAR\n\
+d1 := Scale(EN := TRUE, x := INT#4);\nskipped := Scale(EN := FALSE, x := INT#4, ENO => ok2);\nr1 := Compute(enable := TRUE, base := INT#5);\nr2 := Compute(enable := FALSE, base := INT#5);\n\
+g(EN := FALSE, x := INT#3, ENO => gok);\nh(EN := TRUE, x := INT#3);\nhy := h.y;\nu(go := FALSE);\nu2(go := TRUE);\nuo := u.o;\nu2o := u2.o;\nEND_PROGRAM\n",
+        cycles: 2,
+        expect: &[
+            (0, "Main.d1", "INT#Int(8)"),
+            (0, "Main.r1", "INT#Int(15)"),
+            (0, "Main.r2", "INT#Int(15)"),
+            (0, "Main.ok2", "BOOL#Bool(false)"),
+            (0, "Main.gok", "BOOL#Bool(false)"),
+            (0, "Main.g.n", "INT#Int(0)"),
+            (0, "Main.hy", "INT#Int(4)"),
+            (0, "Main.uo", "INT#Int(7)"),
+            (0, "Main.u2o", "INT#Int(21)"),
+            (1, "Main.r2", "INT#Int(15)"),
+            (1, "Main.g.n", "INT#Int(0)"),
+            (1, "Main.hy", "INT#Int(5)"),
+            (1, "Main.u2o", "INT#Int(21)"),
+        ],
+    },
 ];
